@@ -110,11 +110,14 @@ def Cell.isMissing : Cell F → Bool
   | .missing => true
   | _ => false
 
-/-- what a column's mapper is built from: the fitted category list (`col_stats[col][COUNT|MULTI_COUNT][0]`)
-    and the user's embedder callable (a pure function of the string it receives). -/
+/-- what the canonical encoding of a column's cells depends on: the fitted category list
+    (`col_stats[col][COUNT|MULTI_COUNT][0]`), the user's embedder callable (a pure function of the string
+    it receives) and the column's embedding width. -/
 structure ColCfg (F : Type) where
   cats : List Key := []
   embed : String → List (Val F) := fun _ => []
+  /-- the width of a plain embedding column (`col_stats[col][EMB_DIM]`) -/
+  embDim : Nat := 0
 
 /-- the string handed to a text / image embedder: the harness passes `str(cell)` as `.text` -/
 def cellText : Cell F → String
@@ -136,6 +139,7 @@ def encodeCell (cfg : ColCfg F) : Stype → Cell F → List (Val F)
   | .timestamp, .time s => (Cal.components s).map .int
   | .timestamp, _ => Cal.missingComponents.map .int
   | .embedding, .vec v => v
+  | .embedding, .missing => List.replicate cfg.embDim .nan
   | .text_embedded, c => cfg.embed (cellText c)
   | .image_embedded, c => cfg.embed (cellText c)
   | _, _ => []       -- missing / empty sequence; anything else is outside the typed domain
@@ -232,8 +236,14 @@ def cellVec : Cell F → List (Val F)
   | .vec v => v
   | _ => []
 
-/-- `EmbeddingTensorMapper.forward` without embedder: `np.stack(ser.values)`. -/
-def embeddingForward (cells : List (Cell F)) : MET (Val F) := metOfRows (cells.map cellVec)
+/-- `EmbeddingTensorMapper.forward` without embedder (with fix 4868d4c): a missing cell becomes a NaN vector
+    as wide as the first non-missing vector OF THE SERIES BEING CONVERTED, then `np.stack`.
+    (a series whose cells are all missing raises in the code; here it yields zero-width rows — outside the domain) -/
+def embeddingForward (cells : List (Cell F)) : MET (Val F) :=
+  let w := match cells.find? (fun c => !c.isMissing) with
+    | some c => (cellVec c).length
+    | none => 0
+  metOfRows (cells.map fun c => if c.isMissing then List.replicate w .nan else cellVec c)
 
 /-- `EmbeddingTensorMapper.forward` with an embedder: the callable receives `str(value)` per row
     (in mini-batches; the callable is a function of each string, so batching is not observable). -/
@@ -252,6 +262,15 @@ def forward (cfg : ColCfg F) (s : Stype) (labels : List L) (cells : List (Cell F
   | .text_embedded => .met (embedderForward cfg.embed cells)
   | .image_embedded => .met (embedderForward cfg.embed cells)
   | .text_tokenized => .dense []     -- dictionaries of token tensors are not part of C01/C02/C04
+
+/-- The typed domain of one column (what the harness generates): no token-valued column, the mapper's
+    internal missing marker `-1` is neither a fitted category nor a token of a cell, and a plain embedding
+    column has at least one vector and all its vectors have the fitted width. -/
+def ColWF (cfg : ColCfg F) (s : Stype) (cells : List (Cell F)) : Prop :=
+  s ≠ .text_tokenized ∧
+  (s = .multicategorical → missingTok ∉ cfg.cats ∧ ∀ ts, Cell.toks ts ∈ cells → missingTok ∉ ts) ∧
+  (s = .embedding → (∃ c ∈ cells, c.isMissing = false) ∧
+    ∀ c ∈ cells, c.isMissing = false → (cellVec c).length = cfg.embDim)
 
 /-- canonical one-column nested tensor holding the given cells -/
 def mntOfCol (cells : List (List α)) : MNT α :=
